@@ -43,6 +43,13 @@ def gen(rng, tier):
         rle = G.rare_rle(rng, labs)
         yield {'trajs': None, 'rle': rle, 'lag': 1, 'start': labs[0], 'steps': rng.choice([5, 50]), 'seed': rng.randrange(2**31),
                'alpha': akind, 'tmat': None}
+    for _ in range(2 if tier == 'quick' else 12):       # more than 64 / 128 / 256 states
+        trajs, tag = G.size_classes(rng, sticky=0.5)
+        while tag != 'many-states':
+            trajs, tag = G.size_classes(rng, sticky=0.5)
+        present = sorted({v for t in trajs for v in t})
+        yield {'trajs': trajs, 'lag': 1, 'start': rng.choice(present), 'steps': rng.choice([50, 300]), 'seed': rng.randrange(2**31),
+               'alpha': 'many-states', 'tmat': None}
     for _ in range(10 if tier == 'quick' else 300):     # user-supplied matrices
         k = rng.randint(2, 6)
         T = []
